@@ -432,6 +432,8 @@ pub mod imp {
             w.e("ecu1").min_version().ok()
         ));
         op!(v, "get_sub_element", "byname", "", |w| format!("ok:{}", w.e("p1").get_sub_element(EN::Elements).is_some()));
+        // readers of AR-PACKAGES (the parent of the packages that file operations delete) that hold its lock across a scheduling point
+        op!(v, "get_sub_element", "pkgs_byname", "", |w| format!("ok:{}", w.e("pkgs").get_sub_element(EN::ArPackage).is_some()));
         op!(v, "get_sub_element", "at", "", |w| format!("ok:{}", w.e("p1el").get_sub_element_at(1).is_some()));
         op!(v, "get_sub_element", "sub_elements_iter", "", |w| format!("ok:{}", w.e("p1el").sub_elements().count()));
         op!(v, "get_sub_element", "list_valid", "", |w| format!("ok:{}", w.e("p1").list_valid_sub_elements().len()));
@@ -494,6 +496,7 @@ pub mod imp {
             Err(e) => format!("err:{}", variant(&e)),
         });
         op!(v, "serialize", "element", "", |w| format!("ok:{:016x}", fnv(&w.e("p1").serialize())));
+        op!(v, "serialize", "pkgs", "", |w| format!("ok:{:016x}", fnv(&w.e("pkgs").serialize())));
         op!(v, "serialize", "src_parent", "", |w| format!("ok:{:016x}", fnv(&w.e("p1el").serialize())));
         op!(v, "serialize", "stale", "", |w| format!("ok:{:016x}", fnv(&w.e("stale").serialize())));
         op!(v, "serialize_files", "model", "S1,S2,S3,S4", |w| {
